@@ -84,7 +84,7 @@ def run_async_job(job):
             to = job.get("call_timeout", 60)
             wd = lambda f, w: arun.call_with_watchdog(f, to, w)  # noqa: E731
         try:
-            eps_done, cur = arun.run_history(h, run["history"], wd=wd, on_boundary=on_boundary, eps0=eps_next, fixed_gs_eps=job.get("fixed_gs_eps"))
+            eps_done, cur = arun.run_history(h, run["history"], wd=wd, on_boundary=on_boundary, eps0=eps_next, fixed_gs_eps=job.get("fixed_gs_eps"), dirty=bool(job.get("dirty_init")))
         except gate.LogicalDeadlock as e:
             rr["events"].append(dict(kind="deadlock", detail=str(e), choices=list(S.choices), npoints=S.n_points))
             rr["fatal"] = True
